@@ -13,36 +13,45 @@ def patched_tree(patch):
         shutil.rmtree(tmp); raise RuntimeError(f'patch failed: {r.stdout} {r.stderr}')
     return tmp
 
+PROPS = ['C%02d' % i for i in range(1, 21)]
+
+
+def one(sname):
+    mods = {}
+    for p in PROPS:
+        try:
+            mods[p] = importlib.import_module(f'rules.{p.lower()}')
+        except ModuleNotFoundError:
+            pass
+    d = os.path.join(HERE, 'seeded', sname)
+    meta = json.load(open(os.path.join(d, 'meta.json')))
+    tmp = patched_tree(os.path.join(d, 'patch.diff'))
+    hits, errs = [], []
+    try:
+        an = report.Analysis(root=tmp)
+        for p, mod in mods.items():
+            code, ctx, new, known = report.run_property(mod, an, 'quick', write=False, quiet=True)
+            for i in new:
+                hits.append(f'{p}:{i.rule} [{i.construct}]')
+            if ctx is not None and ctx.errors:
+                errs.append(f'{p}: {ctx.errors[0][:100]}')
+    finally:
+        shutil.rmtree(tmp)
+    return sname, meta, hits, errs
+
+
 def main():
+    import multiprocessing
     args = [a for a in sys.argv[1:] if not a.startswith('--')]
     update = '--update' in sys.argv
     seeds = sorted(os.listdir(os.path.join(HERE, 'seeded')))
     if args:
         seeds = [s for s in seeds if s in args]
-    props = ['C%02d' % i for i in range(1, 21)]
-    mods = {}
-    for p in props:
-        try:
-            mods[p] = importlib.import_module(f'rules.{p.lower()}')
-        except ModuleNotFoundError:
-            pass
+    with multiprocessing.Pool(14) as pool:
+        results = pool.map(one, seeds)
     missed = []
-    for s in seeds:
+    for s, meta, hits, errs in results:
         d = os.path.join(HERE, 'seeded', s)
-        meta = json.load(open(os.path.join(d, 'meta.json')))
-        tmp = patched_tree(os.path.join(d, 'patch.diff'))
-        try:
-            an = report.Analysis(root=tmp)
-            hits = []
-            errs = []
-            for p, mod in mods.items():
-                code, ctx, new, known = report.run_property(mod, an, 'quick', write=False, quiet=True)
-                for i in new:
-                    hits.append(f'{p}:{i.rule} [{i.construct}]')
-                if ctx is not None and ctx.errors:
-                    errs.append(f'{p}: {ctx.errors[0][:100]}')
-        finally:
-            shutil.rmtree(tmp)
         own = [h for h in hits if h.startswith(meta['property'] + ':')]
         status = 'OWN' if own else ('OTHER' if hits else ('ERRONLY' if errs else 'MISSED'))
         print(f'{s}: {status} own={len(own)} all={len(hits)} ' + ('; '.join(sorted({h.split(" [")[0] for h in hits}))) + (f' errors={errs}' if errs else ''))
@@ -53,6 +62,7 @@ def main():
             meta['detected_constructs'] = hits[:12]
             json.dump(meta, open(os.path.join(d, 'meta.json'), 'w'), indent=1)
     print('not detected by own property check:', missed)
+
 
 if __name__ == '__main__':
     main()
